@@ -7,7 +7,6 @@ import sys
 import warnings
 from collections import abc
 from dataclasses import MISSING, Field
-from dataclasses import astuple as _get_arguments
 from dataclasses import dataclass as _create_dataclass
 from dataclasses import field as _create_field
 from dataclasses import fields as _get_fields
@@ -39,6 +38,12 @@ if TYPE_CHECKING:
     T = TypeVar("T")
 
 ExprClass = TypeVar("ExprClass", bound=sp.Expr)
+
+
+def _get_arguments(instance) -> tuple:
+    # not dataclasses.astuple(): it recurses into (and copies) arguments that are
+    # themselves dataclass-like expressions, turning them into plain tuples
+    return tuple(getattr(instance, field.name) for field in _get_fields(instance))
 
 
 class SymPyAssumptions(TypedDict, total=False):
